@@ -361,10 +361,11 @@ func (g *rgen) element(depth int) *Node {
 	g.cellAttrs(n)
 	if depth >= 6 {
 		n.Kids = []*Node{g.b.tk()}
-	} else if sd := specifiedDisplay(n); isRunningNode(n) && (sd == "inline" || sd == "inline list-item") && r.Float64() < 0.95 {
-		// a running inline element holding an in-flow block-level box is the open finding
-		// F-C09-running-inline-split-by-block: 19 of 20 running inline elements get inline content only,
-		// so that the known hits do not take the other clauses of too many trees out of the run
+	} else if sd := specifiedDisplay(n); isRunningNode(n) && (sd == "inline" || sd == "inline list-item") && r.Float64() < 0.5 {
+		// a running inline element holding an in-flow block-level box was the finding
+		// F-C09-running-inline-split-by-block (repaired in /repo by 7022988): while it was open 19 of 20
+		// running inline elements got inline content only; now one in two (the draw is kept so that the
+		// random stream of the other trees does not change)
 		n.Kids = []*Node{g.textKid()}
 		if r.Float64() < 0.5 {
 			n.Kids = append(n.Kids, g.b.el("span", "", g.b.tk()), g.textKid())
